@@ -363,7 +363,10 @@ class ClassRef:
 
 
 class Interp:
-    def __init__(self, repo, module: str, globals_: Optional[Dict[str, Any]] = None, max_steps: int = 400_000):
+    def __init__(self, repo, module: str, globals_: Optional[Dict[str, Any]] = None, max_steps: int = 400_000, cov: Optional[set] = None):
+        # coverage: ids of the statements / conditional arms / short-circuit operands that were interpreted.  A rule that
+        # claims "holds on every input class" must also see that its classes reach every part of the fragment (coverage_gaps)
+        self.cov: set = cov if cov is not None else set()
         self.repo = repo
         self.module = module
         self.globals = dict(globals_ or {})
@@ -768,6 +771,7 @@ class Interp:
             sc.vars[a.kwarg.arg] = kwargs
         elif kwargs:
             raise ProgramError(TypeError(f"{clo.name}() got an unexpected keyword argument '{next(iter(kwargs))}'"), node)
+        self.cov.add(id(node))
         if isinstance(node, ast.Lambda):
             return self.ev(node.body, sc, clo.module)
         if any(isinstance(n, (ast.Yield, ast.YieldFrom, ast.Await)) for n in _walk_own(node)):
@@ -831,6 +835,7 @@ class Interp:
 
     def _exec(self, st: ast.stmt, sc: Scope, module: str) -> None:
         self._tick()
+        self.cov.add(id(st))
         if isinstance(st, ast.Expr):
             self.ev(st.value, sc, module)
         elif isinstance(st, ast.Assign):
@@ -1105,6 +1110,7 @@ class Interp:
     def _e_BoolOp(self, n, sc, module):
         r = None
         for v in n.values:
+            self.cov.add(id(v))
             r = self.ev(v, sc, module)
             t = self._truth(r, v)
             if isinstance(n.op, ast.And) and not t:
@@ -1125,7 +1131,9 @@ class Interp:
         return r if len(n.ops) == 1 else True
 
     def _e_IfExp(self, n, sc, module):
-        return self.ev(n.body if self._truth(self.ev(n.test, sc, module), n.test) else n.orelse, sc, module)
+        arm = n.body if self._truth(self.ev(n.test, sc, module), n.test) else n.orelse
+        self.cov.add(id(arm))
+        return self.ev(arm, sc, module)
 
     def _e_Subscript(self, n, sc, module):
         base = self.ev(n.value, sc, module)
@@ -1244,3 +1252,61 @@ def _walk_own(fn: ast.AST) -> Iterator[ast.AST]:
         if isinstance(n, (ast.FunctionDef, ast.AsyncFunctionDef, ast.ClassDef, ast.Lambda)):
             continue
         stack.extend(ast.iter_child_nodes(n))
+
+
+def coverage_gaps(cov: set, fn: ast.AST, limit: int = 3) -> List[str]:
+    """Parts of a function that no interpreted run reached: statements, arms of conditional expressions, operands of
+    and/or, bodies of nested functions/lambdas.  Empty list = every part was interpreted at least once."""
+    gaps: List[str] = []
+
+    def note(n: ast.AST, what: str) -> None:
+        if len(gaps) < limit:
+            gaps.append(f"line {getattr(n, 'lineno', '?')}: {what} `{ast.unparse(n)[:60].splitlines()[0]}`")
+
+    def block(stmts: Sequence[ast.stmt]) -> None:
+        for st in stmts:
+            if isinstance(st, ast.Expr) and isinstance(st.value, ast.Constant):
+                continue  # docstring
+            if isinstance(st, ast.Pass):
+                continue
+            if id(st) not in cov:
+                note(st, "statement never reached")
+                continue  # what is inside is unreached too
+            if isinstance(st, (ast.FunctionDef, ast.AsyncFunctionDef)):
+                if id(st) in cov:  # defined; was it ever called?
+                    pass
+                inner = st.body
+                called = any(id(x) in cov for x in inner)
+                if not called:
+                    note(st, "nested function never called")
+                else:
+                    block(inner)
+                continue
+            for field in ("body", "orelse", "finalbody"):
+                sub = getattr(st, field, None)
+                if isinstance(sub, list) and sub and isinstance(sub[0], ast.stmt):
+                    block(sub)
+            for h in getattr(st, "handlers", []) or []:
+                block(h.body)
+            exprs(st)
+
+    def exprs(st: ast.stmt) -> None:
+        stack = [c for c in ast.iter_child_nodes(st) if isinstance(c, ast.expr)]
+        while stack:
+            e = stack.pop()
+            if isinstance(e, ast.IfExp):
+                for arm in (e.body, e.orelse):
+                    if id(arm) not in cov:
+                        note(arm, "arm of a conditional expression never taken")
+            elif isinstance(e, ast.BoolOp):
+                for v in e.values[1:]:
+                    if id(v) not in cov:
+                        note(v, "operand of and/or never evaluated")
+            elif isinstance(e, ast.Lambda):
+                if id(e) not in cov:
+                    note(e, "lambda never called")
+                    continue
+            stack.extend(c for c in ast.iter_child_nodes(e) if isinstance(c, (ast.expr, ast.comprehension, ast.keyword)))
+
+    block(getattr(fn, "body", []))
+    return gaps
